@@ -358,3 +358,182 @@ class Repeat(Contract):
 
     def canaries(self, S, case, env, result):
         yield "axis-stays-singleton", S.n(result.axes[case["d"]].values) == 1
+
+
+# ---- broadcast / broadcast_arrays (they need reshape(), C11's row-major model) -------------------------------------------
+BC_KIND = {"x0": "f", "x1": "O", "x2": "f"}
+
+
+def _bc_array(S, prefix, dims):
+    from .common import assume_order
+    labs, axes = {}, []
+    for d in dims:
+        L = S.array1d("%s.%s" % (prefix, d), BC_KIND[d])
+        assume_order(S, L, "unique")
+        labs[d] = L
+        axes.append(S.da.Axis(L, d))
+    data = S.arraynd(prefix + ".data", "f", tuple(S.n(labs[d]) for d in dims))
+    arr = S.da.DimArray(data, axes=axes)
+    arr.attrs.update({"units": "K"})
+    return arr, labs, data
+
+
+def _labels_equal(S, A, B):
+    return S.land(S.n(A) == S.n(B), S.forall(0, S.n(A), lambda k: S.implies(k < S.n(B), lambda: S.at(A, k) == S.at(B, k))))
+
+
+class Broadcast(Contract):
+    """a.broadcast(target) for a target given as a list of Axis objects, a DimArray or an OrderedDict: the result's dimensions
+    are exactly the target's, in the target's order; a dimension the operand has keeps the operand's labels and data (a
+    SINGLETON dimension of the operand is expanded to the target's labels, its data replicated); a dimension the operand lacks
+    carries the target's labels and the data is replicated along it; the cell at every coordinate is the operand's cell at the
+    same coordinate restricted, by NAME, to the operand's dimensions; metadata kept; operand untouched.  Domain: on the
+    dimensions both have (and the operand is not singleton) the target carries the operand's labels -- broadcast does not
+    re-index.  [C10]"""
+    target = "dimarray.core.reshape:broadcast"
+    props = ("C10", "C15", "C16")
+    inlined = ("reshape (own contract: Reshape, C11)", "repeat (own contract: Repeat)", "Axis.__init__")
+
+    CONFIGS = {  # operand dims -> target dims
+        "x0->x0x1": (["x0"], ["x0", "x1"]),
+        "x1->x0x1": (["x1"], ["x0", "x1"]),
+        "x1x0->x0x1": (["x1", "x0"], ["x0", "x1"]),
+        "x0x1->x0x1": (["x0", "x1"], ["x0", "x1"]),
+        "0d->x0": ([], ["x0"]),
+        "0d->x0x1": ([], ["x0", "x1"]),
+        "x0->x1x0x2": (["x0"], ["x1", "x0", "x2"]),
+        "x2x0->x0x1x2": (["x2", "x0"], ["x0", "x1", "x2"]),
+    }
+
+    def cases(self, tier):
+        for cfg in self.CONFIGS:
+            if tier == "quick" and cfg in ("x2x0->x0x1x2",):
+                continue
+            for form in ("axis-list", "dimarray", "ordereddict"):
+                if form != "axis-list" and tier == "quick" and cfg not in ("x0->x0x1", "x1x0->x0x1"):
+                    continue
+                yield {"name": "%s-%s" % (cfg, form), "cfg": cfg, "form": form}
+
+    def bound_lengths(self, case):
+        src, tgt = self.CONFIGS[case["cfg"]]
+        return ["a.%s.n" % d for d in src] + ["t.%s.n" % d for d in tgt]
+
+    def setup(self, S, case):
+        src, tgt = self.CONFIGS[case["cfg"]]
+        arr, labs, data = _bc_array(S, "a", src)
+        tarr, tlabs, tdata = _bc_array(S, "t", tgt)
+        for d in src:
+            if d in tgt:
+                S.assume(S.lor(S.n(labs[d]) == 1, _labels_equal(S, tlabs[d], labs[d])), "the target carries the operand's labels on a shared non-singleton dimension")
+        return {"arr": arr, "labs": labs, "data": data, "tarr": tarr, "tlabs": tlabs, "src": src, "tgt": tgt, "attrs0": dict(arr.attrs),
+                "axes0": list(arr.axes)}
+
+    def call(self, fn, env):
+        from collections import OrderedDict
+        form, tarr = env["case"]["form"], env["tarr"]
+        if form == "axis-list":
+            return env["arr"].broadcast(list(tarr.axes))
+        if form == "dimarray":
+            return env["arr"].broadcast(tarr)
+        return env["arr"].broadcast(OrderedDict((ax.name, ax.values) for ax in tarr.axes))
+
+    def post(self, S, case, env, result):
+        src, tgt, labs, tlabs, data = env["src"], env["tgt"], env["labs"], env["tlabs"], env["data"]
+        yield "is-dimarray", S.is_dimarray(result)
+        ok = tuple(result.dims) == tuple(tgt)
+        yield "dims-are-exactly-the-targets", ok
+        if not ok:
+            return
+        ext = {}
+        for i, d in enumerate(tgt):
+            Lr, T = result.axes[i].values, tlabs[d]
+            if d in src:
+                L = labs[d]
+                expand = S.land(S.n(L) == 1, S.n(T) != 1)
+                yield "%s:operands-labels-unless-a-singleton-is-expanded" % d, S.land(
+                    S.implies(expand, lambda Lr=Lr, T=T: _labels_equal(S, Lr, T)), S.implies(S.lnot(expand), lambda Lr=Lr, L=L: _labels_equal(S, Lr, L)))
+            else:
+                yield "%s:new-dimension-carries-the-targets-labels" % d, _labels_equal(S, Lr, T)
+            ext[d] = S.n(Lr)
+        rv = result.values
+
+        def cell(*k):
+            kk = dict(zip(tgt, k))
+            sidx = [S.ite(S.n(labs[d]) == 1, 0, kk[d]) for d in src]
+            return S.same(S.at(rv, *k), S.at(data, *sidx))
+        yield "cell-is-the-operands-cell-at-the-same-coordinate-replicated-along-new-dimensions", S.forall_nd([ext[d] for d in tgt], cell)
+        yield "metadata-kept", dict(result.attrs) == env["attrs0"]
+        arr = env["arr"]
+        yield "operand-untouched", S.land(arr.values is data, tuple(arr.dims) == tuple(src), dict(arr.attrs) == env["attrs0"],
+                                          all(a is b for a, b in zip(arr.axes, env["axes0"])), *[arr.axes[i].values is labs[d] for i, d in enumerate(src)])
+
+    def canaries(self, S, case, env, result):
+        yield "result-is-empty", S.shape(result.values)[0] == 0
+
+
+class BroadcastArrays(Contract):
+    """broadcast_arrays(a, b): both results have the union of the dimensions (first-occurrence order) and the same shape;
+    each dimension carries the labels of the operand(s) that have it; each result's cell at every coordinate is its own
+    operand's cell at that coordinate restricted by NAME to the operand's dimensions (replicated along the others); ValueError
+    when the operands' labels on a shared non-singleton dimension differ; metadata kept; operands untouched.  [C10]"""
+    target = "dimarray.core.align:broadcast_arrays"
+    props = ("C10", "C15")
+    inlined = ("align_dims", "get_dims", "reshape (own contract: Reshape)", "_get_axes", "broadcast (own contract: Broadcast)")
+
+    CONFIGS = {"x0|x1": (["x0"], ["x1"]), "x0x1|x1": (["x0", "x1"], ["x1"]), "x1|x0x1": (["x1"], ["x0", "x1"]), "x0x1|x1x0": (["x0", "x1"], ["x1", "x0"]),
+               "x0|x0": (["x0"], ["x0"])}
+
+    def cases(self, tier):
+        for cfg in self.CONFIGS:
+            yield {"name": cfg, "cfg": cfg}
+
+    def bound_lengths(self, case):
+        a, b = self.CONFIGS[case["cfg"]]
+        return ["a.%s.n" % d for d in a] + ["b.%s.n" % d for d in b]
+
+    def setup(self, S, case):
+        da_, db_ = self.CONFIGS[case["cfg"]]
+        a, la, xa = _bc_array(S, "a", da_)
+        b, lb, xb = _bc_array(S, "b", db_)
+        for d in da_:
+            if d in db_:
+                # sizes >= 2: singleton axes broadcast (their labels are not compared), which is Broadcast's subject
+                S.assume(S.land(S.n(la[d]) >= 2, S.n(lb[d]) >= 2), "shared dimensions are not singletons")
+        return {"arrs": [a, b], "labs": [la, lb], "datas": [xa, xb], "dims": [da_, db_], "axes0": [list(a.axes), list(b.axes)]}
+
+    def call(self, fn, env):
+        return fn(*env["arrs"])
+
+    def raises(self, S, case, env):
+        da_, db_ = env["dims"]
+        la, lb = env["labs"]
+        differ = S.lor(*[S.lnot(_labels_equal(S, la[d], lb[d])) for d in da_ if d in db_]) if any(d in db_ for d in da_) else False
+        return {ValueError: differ}
+
+    def post(self, S, case, env, result):
+        da_, db_ = env["dims"]
+        rdims = list(da_) + [d for d in db_ if d not in da_]
+        yield "two-results", isinstance(result, (list, tuple)) and len(result) == 2
+        owner = {d: (0 if d in da_ else 1) for d in rdims}
+        for t in (0, 1):
+            out, src, labs, data = result[t], env["dims"][t], env["labs"][t], env["datas"][t]
+            ok = S.is_dimarray(out) and tuple(out.dims) == tuple(rdims)
+            yield "out%d:dims-are-the-union-in-first-occurrence-order" % t, ok
+            if not ok:
+                continue
+            ext = {}
+            for i, d in enumerate(rdims):
+                Lr = out.axes[i].values
+                yield "out%d:%s-carries-its-owners-labels" % (t, d), _labels_equal(S, Lr, env["labs"][owner[d]][d])
+                ext[d] = S.n(Lr)
+            ov = out.values
+            yield "out%d:cell-is-its-operands-cell-replicated-along-the-other-dimensions" % t, S.forall_nd([ext[d] for d in rdims], lambda *k, ov=ov, src=src, data=data: S.same(
+                S.at(ov, *k), S.at(data, *[dict(zip(rdims, k))[d] for d in src])))
+            yield "out%d:metadata-kept" % t, dict(out.attrs) == {"units": "K"}
+        for t in (0, 1):
+            x = env["arrs"][t]
+            yield "operand-%d-untouched" % t, S.land(x.values is env["datas"][t], tuple(x.dims) == tuple(env["dims"][t]), all(u is v for u, v in zip(x.axes, env["axes0"][t])),
+                                                    dict(x.attrs) == {"units": "K"})
+
+    def canaries(self, S, case, env, result):
+        yield "first-result-is-empty", S.shape(result[0].values)[0] == 0
